@@ -929,9 +929,12 @@ package core
 // ---- C01: the pattern trie's write path ---------------------------------------------------------
 // "No matching rule is ever skipped because of how rules are indexed ... a rule that was removed ... never blocks other
 // rules": adding or removing ONE id's pattern never detaches a branch of the trie and never touches the membership of
-// any other id (branches are created on demand and never removed; only the id sets at the leaves change, and only for id).
-//@ define piKeepsBranches() = forall(n, *PatternIndex, !fresh(n) ==> (old(n.Var) != nil ==> n.Var == old(n.Var)) && (old(n.Map) != nil ==> n.Map == old(n.Map)) && (old(n.String) != nil ==> n.String == old(n.String)) && (old(n.Ids) != nil ==> n.Ids == old(n.Ids)))
-//@ define piKeepsKeys() = forall(m, map[string]*PatternIndex, forall(k, string, !fresh(m) && old(has(m, k)) ==> has(m, k) && m[k] == old(m[k])))
+// any other id (branches are created on demand; only the id sets at the leaves change, and only for id).
+// (a node may only be detached once it is completely empty: no ids, no key, variable or map branch below it - the
+// current code never detaches anything, a pruning implementation would have to respect this)
+//@ define emptyNode(c) = len(c.Ids) == 0 && len(c.String) == 0 && c.Var == nil && c.Map == nil
+//@ define piKeepsBranches() = forall(n, *PatternIndex, !fresh(n) ==> (old(n.Var) != nil ==> n.Var == old(n.Var) || emptyNode(old(n.Var))) && (old(n.Map) != nil ==> n.Map == old(n.Map) || emptyNode(old(n.Map))) && (old(n.String) != nil ==> n.String == old(n.String)) && (old(n.Ids) != nil ==> n.Ids == old(n.Ids)))
+//@ define piKeepsKeys() = forall(m, map[string]*PatternIndex, forall(k, string, !fresh(m) && old(has(m, k)) ==> (has(m, k) && m[k] == old(m[k])) || emptyNode(old(m[k]))))
 //@ define piKeepsOtherIds(id) = forall(s, StringSet, forall(x, string, !fresh(s) && x != id && old(has(s, x)) ==> has(s, x)))
 //@ func (*PatternIndex).mod
 //@   ensures[C01.pi_mod_never_detaches_a_branch] piKeepsBranches()
